@@ -29,7 +29,7 @@ def bounds(tier):
 
 
 def shards(tier):
-    return [("pat", a, b) for a in range(len(KEYS)) for b in range(len(KEYS))] + [("short", 0), ("construction", 0), ("ctor", 0), ("leak", 0), ("unicode", 0)] + [("spellings", r) for r in range(16)] + [("longorders", 0)]
+    return [("pat", a, b) for a in range(len(KEYS)) for b in range(len(KEYS))] + [("short", 0), ("construction", 0), ("ctor", 0), ("leak", 0), ("unicode", 0)] + [("spellings", r) for r in range(16)] + [("longorders", 0), ("many", 0)]
 
 
 def others():
@@ -305,6 +305,57 @@ def check_long_orders(acc, tier):
                         break
 
 
+MANY = {"quick": [15, 16, 17, 31, 32, 33, 64, 100, 101, 150, 257, 1025], "thorough": [15, 16, 17, 31, 32, 33, 64, 100, 101, 150, 257, 1025, 4097, 16385]}
+
+
+def check_many(acc, tier):
+    """Counts beyond the small ones: ONE instance of each middleware over a library of n entries whose keys collide
+    case-insensitively (every entry judged, the n-th like the first), and one entry of n fields / n colliding pairs."""
+    from bibtexparser.middlewares import NormalizeFieldKeys
+
+    def ref_norm(src):
+        last, order = {}, []
+        for k, v in src:
+            if k.lower() not in last:
+                order.append(k.lower())
+            last[k.lower()] = v
+        return [(k, last[k]) for k in order]
+
+    ref_alpha = lambda src: [kv for _, kv in sorted(enumerate(src), key=lambda t: (t[1][0], t[0]))]
+    ref_custom = lambda src: [kv for _, kv in sorted(enumerate(src), key=lambda t: ((0 if t[1][0].lower() == "title" else 1), t[0]))]
+    for n in MANY[tier]:
+        libs = {
+            "n entries with one colliding pair each": Library([Entry("a", f"k{i}", [Field("Title", f"first{i}"), Field("year", "1"), Field("title", f"last{i}")]) for i in range(n)]),
+            "one entry with n colliding pairs": Library([Entry("a", "k", [Field(f"F{i}", f"first{i}") for i in range(n)] + [Field(f"f{i}", f"last{i}") for i in range(n)])]),
+            "one entry with n distinct keys in reverse order": Library([Entry("a", "k", [Field(f"g{n - i:06d}", str(i)) for i in range(n)] + [Field("title", "t")])]),
+        }
+        for lname, mklib in libs.items():
+            for mwname, fac, ref in (
+                ("normalize", lambda ip: NormalizeFieldKeys(allow_inplace_modification=ip), ref_norm),
+                ("alphabetical", lambda ip: SortFieldsAlphabeticallyMiddleware(allow_inplace_modification=ip), ref_alpha),
+                ("custom", lambda ip: SortFieldsCustomMiddleware(order=("title",), allow_inplace_modification=ip), ref_custom),
+            ):
+                case = {"many": n, "library": lname, "middleware": mwname}
+                acc.trace()
+                acc.case(nontrivial_key=("many", n, lname, mwname))
+                acc.count("many_cases")
+                srcs = [pairs(b) for b in mklib.blocks]
+                try:
+                    out = fac(False).transform(mklib)
+                except Exception as ex:
+                    acc.exception(ex, case, mwname, size=n)
+                    continue
+                acc.step(("many", n, lname), mwname, len(out.blocks))
+                for i, (b, src) in enumerate(zip(out.blocks, srcs)):
+                    if pairs(b) != ref(src):
+                        acc.violation(
+                            {"oracle": "many_fields_or_entries_through_one_instance", "middleware": mwname, "library": lname},
+                            {"case": dict(case, entry_number=i), "observed": pairs(b)[:6], "expected": ref(src)[:6]},
+                            size=n,
+                        )
+                        break
+
+
 def check_ctor(acc):
     for order, cs in CUSTOM:
         folded = list(order) if cs else [k.lower() for k in order]
@@ -419,6 +470,8 @@ def run_shard(shard, tier, acc):
         check_long_orders(acc, tier)
         check_shared_fields(acc)
         return
+    if shard[0] == "many":
+        return check_many(acc, tier)
     if shard[0] == "spellings":
         check_spellings(acc, shard[1])
         return
@@ -489,6 +542,8 @@ def run_shard(shard, tier, acc):
 def replay(case, acc):
     if "construction_order" in case:
         check_construction_order(acc)
+    elif "many" in case:
+        check_many(acc, "quick" if case["many"] <= 1025 else "thorough")
     elif "shared_fields" in case:
         check_shared_fields(acc)
     elif "long_order" in case:
